@@ -95,3 +95,16 @@ package prolog
 
 //@ global monotone-flag prolog.Solutions.closed C12
 //@ global monotone-flag prolog.Solutions.done C12
+
+//@ func convertAssignAny
+//@   property C15
+//@   requires d != nil
+//@   nosafety
+//@   trusted-frame
+//@   bind v = engine.(*Env).Resolve#1
+//@   at-call engine.(*Env).Resolve requires[resolves-the-answer] a0 == env && a1 == t
+//@   loop 1 invariant true
+//@   ensures[an-unbound-variable-is-nil] v is engine.Variable ==> result == nil && *d == nil
+//@   ensures[an-integer-is-that-int] v is engine.Integer ==> result == nil && (*d) is int && ((*d) as int) == (v as engine.Integer)
+//@   ensures[a-float-is-that-float64] v is engine.Float ==> result == nil && (*d) is float64 && ((*d) as float64) == (v as engine.Float)
+//@   ensures[an-atom-is-its-name] v is engine.Atom && (v as engine.Atom) != atomEmptyList ==> result == nil && (*d) is string
